@@ -252,6 +252,15 @@ class ProgGen:
                 ks = [i for i, v in enumerate(cur) if isinstance(v, (dict, list))]
                 if ks:
                     return ("call", h, "lgetitem", rng.choice(ks))
+        # retyping: overwrite a number / boolean by the ==-equal value of ANOTHER JSON type
+        # (1 / True / 1.0, 0 / False / 0.0): the net change of a program can be a type change only
+        if not read and rng.random() < 0.07:
+            items = list(cur.items()) if isinstance(cur, dict) else list(enumerate(cur))
+            cands = [(k, v) for k, v in items if isinstance(v, (bool, int, float)) and v in (0, 1)]
+            if cands:
+                k, v = rng.choice(cands)
+                alt = [x for x in ((True, 1, 1.0) if v == 1 else (False, 0, 0.0)) if type(x) is not type(v)]
+                return ("call", h, "dsetitem" if isinstance(cur, dict) else "lsetitem", k, rng.choice(alt))
         if self._is_dict(obj):
             name = rng.choice(DICT_READ if read else DICT_MUT)
             if name == "dsetitem":
@@ -337,6 +346,11 @@ class ProgGen:
     def next_ext(self, res, is_dict):
         """an outside rewrite of resource `res`"""
         cur = self.r.world.read(res)
+        if getattr(self, "allow_extdel", False) and cur is not MISSING and self.rng.random() < 0.08:
+            # the outside writer removes the resource (not in twin programs: with the resource gone
+            # every object falls back on its own memory, which a buffered and an unbuffered history
+            # legitimately leave different)
+            return ("extdel", res)
         if cur is MISSING or self.rng.random() < 0.15:
             return ("ext", res, self.vg.container(is_dict, 3))
         if self.rng.random() < 0.25:
